@@ -10,7 +10,11 @@
 
 package runtime
 
-import "github.com/open2b/scriggo/ast"
+import (
+	"reflect"
+
+	"github.com/open2b/scriggo/ast"
+)
 
 // ---- specification helpers (interpreted by govc) ----
 
@@ -188,6 +192,282 @@ func wonly(w any) bool { return true }
 //@     invariant 0 <= last && last <= i && i <= len(s)
 //@     invariant !wfailed(w) && wonly(w)
 //@     decreases len(s) - i
+
+// ---------------------------------------------------------------------------
+// run.go (C01): the integer ALU clauses of the interpreter loop. Integer
+// registers hold every value in canonical form: the value of kind K sign- or
+// zero-extended to 64 bits. Go spec, "Integer overflow": unsigned arithmetic
+// is modulo 2^n, signed arithmetic wraps around; "Arithmetic operators":
+// quotient truncated toward zero; shifts shift the operand by the count.
+//
+// The register file is abstracted: vm.int/vm.intk read arbitrary 64-bit
+// values (lastInt), vm.setInt(c, v) records v (lastArgInt). Verified in
+// bit-vector arithmetic over all 2^64 x 2^64 operand pairs and all kinds.
+// ---------------------------------------------------------------------------
+
+func lastInt(f string) int64           { return 0 }
+func lastArgInt(f string, i int) int64 { return 0 }
+
+// called("f"): f was called on the path taken (the recorded values are
+// meaningful only then).
+func called(f string) bool { return false }
+
+// The kinds the emitter encodes in operand A (flattenIntegerKind never yields
+// Int, Uint, Uintptr or Bool; proved in the compiler's contract file).
+func specFlatIntKind(k reflect.Kind) bool {
+	return reflect.Int8 <= k && k <= reflect.Int64 || reflect.Uint8 <= k && k <= reflect.Uint64
+}
+
+func specUnsignedFlat(k reflect.Kind) bool { return reflect.Uint8 <= k && k <= reflect.Uint64 }
+
+// specCanon: v wrapped to the width of kind k and extended back to 64 bits.
+func specCanon(k reflect.Kind, v int64) int64 {
+	switch k {
+	case reflect.Int8:
+		return int64(int8(v))
+	case reflect.Int16:
+		return int64(int16(v))
+	case reflect.Int32:
+		return int64(int32(v))
+	case reflect.Uint8:
+		return int64(uint8(v))
+	case reflect.Uint16:
+		return int64(uint16(v))
+	case reflect.Uint32:
+		return int64(uint32(v))
+	}
+	return v
+}
+
+func specIsCanon(k reflect.Kind, v int64) bool { return specCanon(k, v) == v }
+
+// Quotient and remainder, Go spec "Arithmetic operators": computed at the
+// operand type (the registers hold the operands extended to 64 bits), truncated
+// toward zero, with the MinInt/-1 quotient wrapping; the result is extended
+// back to 64 bits.
+func specDiv(k reflect.Kind, x, y int64) int64 {
+	switch k {
+	case reflect.Int8:
+		return int64(int8(x) / int8(y))
+	case reflect.Int16:
+		return int64(int16(x) / int16(y))
+	case reflect.Int32:
+		return int64(int32(x) / int32(y))
+	case reflect.Uint8:
+		return int64(uint8(x) / uint8(y))
+	case reflect.Uint16:
+		return int64(uint16(x) / uint16(y))
+	case reflect.Uint32:
+		return int64(uint32(x) / uint32(y))
+	case reflect.Uint64:
+		return int64(uint64(x) / uint64(y))
+	}
+	return x / y
+}
+
+func specRem(k reflect.Kind, x, y int64) int64 {
+	switch k {
+	case reflect.Int8:
+		return int64(int8(x) % int8(y))
+	case reflect.Int16:
+		return int64(int16(x) % int16(y))
+	case reflect.Int32:
+		return int64(int32(x) % int32(y))
+	case reflect.Uint8:
+		return int64(uint8(x) % uint8(y))
+	case reflect.Uint16:
+		return int64(uint16(x) % uint16(y))
+	case reflect.Uint32:
+		return int64(uint32(x) % uint32(y))
+	case reflect.Uint64:
+		return int64(uint64(x) % uint64(y))
+	}
+	return x % y
+}
+
+// Right shift of a canonical operand: arithmetic for signed kinds, logical for unsigned ones.
+func specShr(k reflect.Kind, x int64, n uint) int64 {
+	if specUnsignedFlat(k) {
+		return int64(uint64(x) >> n)
+	}
+	return x >> n
+}
+
+//@ func (*VM).int
+//@   props X00
+//@   trusted
+
+//@ func (*VM).intk
+//@   props X00
+//@   trusted
+//@   ensures k ==> result == int64(r)
+
+//@ func (*VM).setInt
+//@   props X00
+//@   trusted
+
+//@ func (*VM).float
+//@   props X00
+//@   trusted
+
+//@ func (*VM).floatk
+//@   props X00
+//@   trusted
+
+//@ func (*VM).setFloat
+//@   props X00
+//@   trusted
+
+//@ clause (*VM).run/case OpAdd
+//@   props C01
+//@   mode bv
+//@   opt track int intk setInt
+//@   ensures specFlatIntKind(reflect.Kind(a)) ==> called("setInt") && lastArgInt("setInt", 1) == specCanon(reflect.Kind(a), lastInt("intk")+lastInt("int"))
+
+//@ clause (*VM).run/case OpSub
+//@   props C01
+//@   mode bv
+//@   opt track int intk setInt
+//@   ensures specFlatIntKind(reflect.Kind(a)) ==> called("setInt") && lastArgInt("setInt", 1) == specCanon(reflect.Kind(a), lastInt("int")-lastInt("intk"))
+
+//@ clause (*VM).run/case OpSubInv
+//@   props C01
+//@   mode bv
+//@   opt track int intk setInt
+//@   ensures specFlatIntKind(reflect.Kind(a)) ==> called("setInt") && lastArgInt("setInt", 1) == specCanon(reflect.Kind(a), lastInt("intk")-lastInt("int"))
+
+//@ clause (*VM).run/case OpMul
+//@   props C01
+//@   mode bv
+//@   opt track int intk setInt
+//@   ensures specFlatIntKind(reflect.Kind(a)) ==> called("setInt") && lastArgInt("setInt", 1) == specCanon(reflect.Kind(a), lastInt("int")*lastInt("intk"))
+
+// Division and remainder: a zero divisor panics natively (classified by
+// convertPanic as "integer divide by zero"); otherwise the K-width quotient of
+// canonical operands, in canonical form.
+//@ clause (*VM).run/case OpDiv
+//@   props C01
+//@   mode bv
+//@   opt track int intk setInt
+//@   opt divpanics ok
+//@   ensures reflect.Kind(a) == reflect.Int8 && specIsCanon(reflect.Int8, lastInt("int")) && specIsCanon(reflect.Int8, lastInt("intk")) ==> called("setInt") && lastArgInt("setInt", 1) == specDiv(reflect.Int8, lastInt("int"), lastInt("intk"))
+//@   ensures reflect.Kind(a) == reflect.Int16 && specIsCanon(reflect.Int16, lastInt("int")) && specIsCanon(reflect.Int16, lastInt("intk")) ==> called("setInt") && lastArgInt("setInt", 1) == specDiv(reflect.Int16, lastInt("int"), lastInt("intk"))
+//@   ensures reflect.Kind(a) == reflect.Int32 && specIsCanon(reflect.Int32, lastInt("int")) && specIsCanon(reflect.Int32, lastInt("intk")) ==> called("setInt") && lastArgInt("setInt", 1) == specDiv(reflect.Int32, lastInt("int"), lastInt("intk"))
+//@   ensures reflect.Kind(a) == reflect.Int64 ==> called("setInt") && lastArgInt("setInt", 1) == specDiv(reflect.Int64, lastInt("int"), lastInt("intk"))
+//@   ensures reflect.Kind(a) == reflect.Uint8 && specIsCanon(reflect.Uint8, lastInt("int")) && specIsCanon(reflect.Uint8, lastInt("intk")) ==> called("setInt") && lastArgInt("setInt", 1) == specDiv(reflect.Uint8, lastInt("int"), lastInt("intk"))
+//@   ensures reflect.Kind(a) == reflect.Uint16 && specIsCanon(reflect.Uint16, lastInt("int")) && specIsCanon(reflect.Uint16, lastInt("intk")) ==> called("setInt") && lastArgInt("setInt", 1) == specDiv(reflect.Uint16, lastInt("int"), lastInt("intk"))
+//@   ensures reflect.Kind(a) == reflect.Uint32 && specIsCanon(reflect.Uint32, lastInt("int")) && specIsCanon(reflect.Uint32, lastInt("intk")) ==> called("setInt") && lastArgInt("setInt", 1) == specDiv(reflect.Uint32, lastInt("int"), lastInt("intk"))
+//@   ensures reflect.Kind(a) == reflect.Uint64 ==> called("setInt") && lastArgInt("setInt", 1) == specDiv(reflect.Uint64, lastInt("int"), lastInt("intk"))
+
+//@ clause (*VM).run/case OpRem
+//@   props C01
+//@   mode bv
+//@   opt track int intk setInt
+//@   opt divpanics ok
+//@   ensures reflect.Kind(a) == reflect.Int8 && specIsCanon(reflect.Int8, lastInt("int")) && specIsCanon(reflect.Int8, lastInt("intk")) ==> called("setInt") && lastArgInt("setInt", 1) == specRem(reflect.Int8, lastInt("int"), lastInt("intk"))
+//@   ensures reflect.Kind(a) == reflect.Int16 && specIsCanon(reflect.Int16, lastInt("int")) && specIsCanon(reflect.Int16, lastInt("intk")) ==> called("setInt") && lastArgInt("setInt", 1) == specRem(reflect.Int16, lastInt("int"), lastInt("intk"))
+//@   ensures reflect.Kind(a) == reflect.Int32 && specIsCanon(reflect.Int32, lastInt("int")) && specIsCanon(reflect.Int32, lastInt("intk")) ==> called("setInt") && lastArgInt("setInt", 1) == specRem(reflect.Int32, lastInt("int"), lastInt("intk"))
+//@   ensures reflect.Kind(a) == reflect.Int64 ==> called("setInt") && lastArgInt("setInt", 1) == specRem(reflect.Int64, lastInt("int"), lastInt("intk"))
+//@   ensures reflect.Kind(a) == reflect.Uint8 && specIsCanon(reflect.Uint8, lastInt("int")) && specIsCanon(reflect.Uint8, lastInt("intk")) ==> called("setInt") && lastArgInt("setInt", 1) == specRem(reflect.Uint8, lastInt("int"), lastInt("intk"))
+//@   ensures reflect.Kind(a) == reflect.Uint16 && specIsCanon(reflect.Uint16, lastInt("int")) && specIsCanon(reflect.Uint16, lastInt("intk")) ==> called("setInt") && lastArgInt("setInt", 1) == specRem(reflect.Uint16, lastInt("int"), lastInt("intk"))
+//@   ensures reflect.Kind(a) == reflect.Uint32 && specIsCanon(reflect.Uint32, lastInt("int")) && specIsCanon(reflect.Uint32, lastInt("intk")) ==> called("setInt") && lastArgInt("setInt", 1) == specRem(reflect.Uint32, lastInt("int"), lastInt("intk"))
+//@   ensures reflect.Kind(a) == reflect.Uint64 ==> called("setInt") && lastArgInt("setInt", 1) == specRem(reflect.Uint64, lastInt("int"), lastInt("intk"))
+
+//@ clause (*VM).run/case OpNeg
+//@   props C01
+//@   mode bv
+//@   opt track int setInt
+//@   ensures specFlatIntKind(reflect.Kind(a)) ==> called("setInt") && lastArgInt("setInt", 1) == specCanon(reflect.Kind(a), -lastInt("int"))
+
+// Shifts: the count is non-negative (a negative signed count must panic in Go;
+// the clause cannot tell, see DESIGN C01).
+//@ clause (*VM).run/case OpShl
+//@   props C01
+//@   mode bv
+//@   opt track int intk setInt
+//@   ensures specFlatIntKind(reflect.Kind(a)) && lastInt("intk") >= 0 ==> called("setInt") && lastArgInt("setInt", 1) == specCanon(reflect.Kind(a), lastInt("int")<<uint(lastInt("intk")))
+
+//@ clause (*VM).run/case OpShr
+//@   props C01
+//@   mode bv
+//@   opt track int intk setInt
+//@   ensures specFlatIntKind(reflect.Kind(a)) && specIsCanon(reflect.Kind(a), lastInt("int")) && lastInt("intk") >= 0 ==> called("setInt") && lastArgInt("setInt", 1) == specShr(reflect.Kind(a), lastInt("int"), uint(lastInt("intk")))
+
+// The int forms (operands of Go type int, 64 bits wide: no truncation).
+//@ clause (*VM).run/case OpAddInt
+//@   props C01
+//@   mode bv
+//@   opt track int intk setInt
+//@   ensures called("setInt") && lastArgInt("setInt", 1) == lastInt("int")+lastInt("intk")
+
+//@ clause (*VM).run/case OpSubInt
+//@   props C01
+//@   mode bv
+//@   opt track int intk setInt
+//@   ensures called("setInt") && lastArgInt("setInt", 1) == lastInt("int")-lastInt("intk")
+
+//@ clause (*VM).run/case OpSubInvInt
+//@   props C01
+//@   mode bv
+//@   opt track int intk setInt
+//@   ensures called("setInt") && lastArgInt("setInt", 1) == lastInt("intk")-lastInt("int")
+
+//@ clause (*VM).run/case OpMulInt
+//@   props C01
+//@   mode bv
+//@   opt track int intk setInt
+//@   ensures called("setInt") && lastArgInt("setInt", 1) == lastInt("int")*lastInt("intk")
+
+//@ clause (*VM).run/case OpDivInt
+//@   props C01
+//@   mode bv
+//@   opt track int intk setInt
+//@   opt divpanics ok
+//@   ensures called("setInt") && lastArgInt("setInt", 1) == lastInt("int")/lastInt("intk")
+
+//@ clause (*VM).run/case OpRemInt
+//@   props C01
+//@   mode bv
+//@   opt track int intk setInt
+//@   opt divpanics ok
+//@   ensures called("setInt") && lastArgInt("setInt", 1) == lastInt("int")%lastInt("intk")
+
+//@ clause (*VM).run/case OpShlInt
+//@   props C01
+//@   mode bv
+//@   opt track int intk setInt
+//@   ensures lastInt("intk") >= 0 ==> called("setInt") && lastArgInt("setInt", 1) == lastInt("int")<<uint(lastInt("intk"))
+
+//@ clause (*VM).run/case OpShrInt
+//@   props C01
+//@   mode bv
+//@   opt track int intk setInt
+//@   ensures lastInt("intk") >= 0 ==> called("setInt") && lastArgInt("setInt", 1) == lastInt("int")>>uint(lastInt("intk"))
+
+// Bitwise operations on canonical operands give canonical results.
+//@ clause (*VM).run/case OpAnd
+//@   props C01
+//@   mode bv
+//@   opt track int intk setInt
+//@   ensures called("setInt") && lastArgInt("setInt", 1) == lastInt("int")&lastInt("intk")
+
+//@ clause (*VM).run/case OpOr
+//@   props C01
+//@   mode bv
+//@   opt track int intk setInt
+//@   ensures called("setInt") && lastArgInt("setInt", 1) == lastInt("int")|lastInt("intk")
+
+//@ clause (*VM).run/case OpXor
+//@   props C01
+//@   mode bv
+//@   opt track int intk setInt
+//@   ensures called("setInt") && lastArgInt("setInt", 1) == lastInt("int")^lastInt("intk")
+
+//@ clause (*VM).run/case OpAndNot
+//@   props C01
+//@   mode bv
+//@   opt track int intk setInt
+//@   ensures called("setInt") && lastArgInt("setInt", 1) == lastInt("int")&^lastInt("intk")
 
 // ---------------------------------------------------------------------------
 // env.go, errors.go, vm.go (C12): Stop, Fatal and unrecovered panics.
